@@ -188,7 +188,8 @@ class Prover:
                 try:
                     hy, gl, nq = smt.expand_native(ob)
                     if nq:
-                        tasks.append(Task(ob, 'native-quantifiers', hy, gl, [('z3-5.1.0', 20), ('cvc5-1.0.3', 20)]))
+                        tasks.append(Task(ob, 'native-quantifiers', hy, gl, [('z3-5.1.0', 4)]))
+                        ob._native = (hy, gl)
                         import os as _os
                         if _os.environ.get('VERIF_DUMP_NATIVE') and _os.environ['VERIF_DUMP_NATIVE'] in ob.name:
                             open('/tmp/native_%d.smt2' % len(tasks), 'w').write(tasks[-1].smt2 or '')
@@ -211,6 +212,14 @@ class Prover:
             for t in tasks:
                 if t.status == 'unsat':
                     t.ob.status = 'unsat'; t.ob.backend = t.backend; t.ob.smt2 = t.smt2
+                    t.ob.steps.append(self.rec(t.ob, t))
+            pending = [ob for ob in pending if ob.status != 'unsat']
+            # second, longer attempt with solver-level quantifiers for what the instantiated problem did not settle
+            tasks = [Task(ob, 'native-quantifiers-long', ob._native[0], ob._native[1], [('z3-5.1.0', 25), ('cvc5-1.0.3', 20)]) for ob in pending if getattr(ob, '_native', None)]
+            run_tasks(tasks)
+            for t in tasks:
+                if t.status == 'unsat':
+                    t.ob.status = 'unsat'; t.ob.backend = t.backend + '+quantifiers'; t.ob.smt2 = t.smt2
                     t.ob.steps.append(self.rec(t.ob, t))
             pending = [ob for ob in pending if ob.status != 'unsat']
             # equational back end: polynomial identities modulo the hypothesis equalities (sympy, exact)
